@@ -69,12 +69,13 @@ def mpanic : M α := fun _ => .panic
 
 /-- `c.read(n)`: `br.Peek(n)`, `io.EOF → errUnexpectedEOF`, `br.Discard(len(p))`. -/
 def readN (n : Nat) : M Bytes := fun s =>
-  if n ≤ s.input.length then .ok (s.input.take n) { s with input := s.input.drop n }
+  let p := s.input.take n
+  if p.length = n then .ok p { s with input := s.input.drop n }
   else .fail .ueof { s with input := [] }
 
 /-- `io.CopyN(ioutil.Discard, c.br, n)`: plain `io.EOF` when the stream ends first. -/
 def skipN (n : Nat) : M Unit := fun s =>
-  if n ≤ s.input.length then .ok () { s with input := s.input.drop n }
+  if (s.input.take n).length = n then .ok () { s with input := s.input.drop n }
   else .fail .eof { s with input := [] }
 
 /-- Cyclic XOR with the 4-byte key starting at key index `pos` (`maskBytes`). -/
@@ -291,7 +292,7 @@ def readAllLoop : Nat → Bytes → M (Bytes × Option RErr)
     | some e => .ok (acc, some (if e = .eof then .ueof else e)) s   -- Read returns (0, readErr)
     | none =>
       if s.readRemaining > 0 then
-        let n := min s.readRemaining.toNat s.input.length
+        let n := (s.input.take s.readRemaining.toNat).length     -- min(readRemaining, available)
         if n == 0 then
           -- br.Read returned (0, io.EOF) while readRemaining > 0 → errUnexpectedEOF, latched
           .ok (acc, some .ueof) { s with readErr := some .ueof }
